@@ -330,6 +330,35 @@ func driveRoundTrip(c *driverCtx, prop string) error {
 		cls := "gen|" + strings.Join(tags, "+")
 		runRoundTrip(c, prop, cs, vals, cfg, cls)
 	}
+	// TLC-enumerated types (role B): every type for which a schema and a codec exist
+	if c.cases != "" {
+		ts, err := tlcTypes(c.cases)
+		if err != nil {
+			return err
+		}
+		n := 0
+		for i, t := range ts {
+			zero := reflect.New(t).Elem().Interface()
+			s, err := avro.SchemaForType(zero)
+			if err != nil {
+				continue
+			}
+			if _, err := s.Codec(zero); err != nil {
+				continue
+			}
+			if !c.thorough() && i%3 != int(c.seed)%3 {
+				continue
+			}
+			if usesExcludedShape(t, feat) {
+				continue // a shape listed as a known finding: exercised by its dedicated witness only
+			}
+			vals := genValues(c.rng, t, 3)
+			cfg := genConfig(c, 3)
+			runRoundTrip(c, prop, rtCase{name: fmt.Sprintf("tlc%d", i), typ: t, mk: encodeReflect(t), path: "filewriter"}, vals, cfg, "tlc")
+			n++
+		}
+		c.extra["tlc_types_roundtripped"] = n
+	}
 	// dedicated minimal witnesses (one feature each, including every known finding)
 	for _, wt := range witnessCases() {
 		for k := 0; k < 2; k++ {
@@ -339,4 +368,33 @@ func driveRoundTrip(c *driverCtx, prop string) error {
 		}
 	}
 	return nil
+}
+
+// usesExcludedShape: does the type contain a shape the known-findings list keeps out of composite cases?
+func usesExcludedShape(t reflect.Type, f features) bool {
+	switch t.Kind() {
+	case reflect.Ptr:
+		e := t.Elem()
+		if e.Kind() == reflect.Ptr && !f.PtrPtr {
+			return true
+		}
+		if isNullWrapper(e) && !f.PtrNullWrapper {
+			return true
+		}
+		return usesExcludedShape(e, f)
+	case reflect.Slice, reflect.Array:
+		return usesExcludedShape(t.Elem(), f)
+	case reflect.Map:
+		return usesExcludedShape(t.Elem(), f)
+	case reflect.Struct:
+		if isNullableRegistered(t) {
+			return false
+		}
+		for i := 0; i < t.NumField(); i++ {
+			if usesExcludedShape(t.Field(i).Type, f) {
+				return true
+			}
+		}
+	}
+	return false
 }
